@@ -22,12 +22,16 @@ package qbft
 //@+   msg.GetRound() > 0 && msg.GetPreparedRound() >= 0
 
 //@ func hashProto
-//@ assume-contract deterministic function of the message contents (proto.MarshalOptions{Deterministic: true} + SSZ merkleisation); collision resistance is axiom A-CR
+//@ nopanic
+//@ assume-contract does not panic on decoded messages and is a deterministic function of the message contents (proto.MarshalOptions{Deterministic: true} + SSZ merkleisation); collision resistance is axiom A-CR
 //@ pure
 
 //@ func verifyMsgSig
 //@ props C05 C02 C03 C01
+//@ nopanic
+//@ safe nil
 //@ pure
+//@ requires msg != nil
 //@ assigns clone.Signature
 //@ ensures r1 == nil ==> (r0 <==> sigValid(msg, pubkey))
 //@ ensures r1 == nil ==> msg.Signature != nil
@@ -42,6 +46,8 @@ package qbft
 
 //@ func verifyMsg
 //@ props C05 C02 C03 C01
+//@ nopanic
+//@ safe nil
 //@ pure
 //@ ensures result == nil ==> wellFormed(msg)
 //@ ensures result == nil ==> has(pubkeys, msg.GetPeerIdx()) && res(1, verifyMsgSig(msg, pubkeys[msg.GetPeerIdx()])) == nil && res(0, verifyMsgSig(msg, pubkeys[msg.GetPeerIdx()]))
@@ -49,12 +55,16 @@ package qbft
 
 //@ func verifyMsgLimits
 //@ props C05 C04
+//@ nopanic
+//@ safe nil
 //@ pure
 //@ requires 0 <= nodes && nodes <= 1048576
 //@ ensures result == nil <==> (len(pbMsg.GetJustification()) <= 2*nodes && len(pbMsg.GetValues()) <= 2*(len(pbMsg.GetJustification())+1))
 
 //@ func toHash32
 //@ props C05
+//@ nopanic
+//@ safe nil
 //@ pure
 //@ ensures r1 ==> len(val) == 32 && r0 != [32]byte{}
 //@ ensures !r1 ==> r0 == [32]byte{}
@@ -63,6 +73,8 @@ package qbft
 // (C14: receivers index values by the SAME deterministic hash the proposer signed: hashProto of the decoded value)
 //@ func valuesByHash
 //@ props C05 C14
+//@ nopanic
+//@ safe nil
 //@ pure
 //@ ensures r1 == nil ==> forallk(h, r0, exists(k, 0, len(values), r0[h] == values[k] && res(1, values[k].UnmarshalNew()) == nil &&
 //@+   res(1, hashProto(res(0, values[k].UnmarshalNew()))) == nil && res(0, hashProto(res(0, values[k].UnmarshalNew()))) == h))
@@ -73,6 +85,8 @@ package qbft
 
 //@ func newMsg
 //@ props C05 C04
+//@ nopanic
+//@ safe nil
 //@ pure
 //@ ensures r1 == nil ==> pbMsg != nil && r0.msg == pbMsg && r0.values == values && r0.justificationProtos == justification
 //@ ensures r1 == nil ==> (res(1, toHash32(pbMsg.GetValueHash())) ==> has(values, r0.valueHash) && r0.valueHash == res(0, toHash32(pbMsg.GetValueHash())))
@@ -85,7 +99,9 @@ package qbft
 //@ loop 1 invariant forall(k, 0, $i, res(1, newMsg(justification[k], nil, values)) == nil)
 
 //@ func (c *Consensus) handle
-//@ props C05 C02 C03 C01
+//@ props C05 C02 C03 C01 C14
+//@ nopanic
+//@ safe nil
 //@ requires len(c.pubkeys) <= 1048576
 //@ callreq send c.getRecvBuffer(duty): pbMsg != nil && verifyMsg(pbMsg.GetMsg(), c.pubkeys) == nil
 //@ callreq send c.getRecvBuffer(duty): duty == core.DutyFromProto(pbMsg.GetMsg().GetDuty()) && c.gaterFunc(duty)
@@ -139,6 +155,9 @@ package qbft
 // decided duty, after the instance was told about the decision; nothing is delivered when the hash is unknown.
 //@ func newDefinition$2
 //@ props C03 C14
+//@ nopanic
+//@ safe nil index
+//@ requires len(qcommit) > 0
 //@ callreq decideCallback: a1 == round && res(1, qcommit[0].(Msg)) && has(qcommit[0].(Msg).Values(), valueHash)
 //@ callreq sub: a2 == duty && a3 == res(0, qcommit[0].(Msg).Values()[valueHash].UnmarshalNew()) && ncalls(decideCallback) == 1
 //@ ensures ncalls(decideCallback) <= 1
